@@ -146,6 +146,9 @@ butterfly!(
 );
 
 pub fn algorithms<T: FftNum>() {
+    // the two further public constructors of the butterflies (6.4.1: `pub fn direction_of(fft: &ButterflyN<T>) -> Self`)
+    let _: fn(&Butterfly3<T>) -> Butterfly3<T> = Butterfly3::<T>::direction_of;
+    let _: fn(&Butterfly6<T>) -> Butterfly6<T> = Butterfly6::<T>::direction_of;
     let _: fn(usize, FftDirection) -> Dft<T> = Dft::<T>::new;
     let _: fn(Arc<dyn Fft<T>>, Arc<dyn Fft<T>>) -> MixedRadix<T> = MixedRadix::<T>::new;
     let _: fn(Arc<dyn Fft<T>>, Arc<dyn Fft<T>>) -> MixedRadixSmall<T> = MixedRadixSmall::<T>::new;
